@@ -252,6 +252,32 @@ Fixpoint wait_retry (o : list wans) : option wans * list wans :=
   end.
 
 (* ------------------------------------------------------------------ *)
+(* the calling thread's signal mask around fork (process.c:819-858)      *)
+(* ------------------------------------------------------------------ *)
+(* index = signal number (0 unused), true = blocked *)
+Definition sigmask := list bool.
+
+(* sigfillset minus KILL STOP TRAP SEGV BUS ILL SYS ABRT (and glibc's two
+   internal signals 32, 33, which sigfillset/pthread_sigmask leave alone) *)
+Definition fork_blocked (sig : nat) : bool :=
+  negb (existsb (Nat.eqb sig) [9; 19; 5; 11; 7; 4; 31; 6; 32; 33])%nat.
+
+Fixpoint block_from (i : nat) (m : sigmask) : sigmask :=
+  match m with
+  | [] => []
+  | b :: r => (b || ((1 <=? i)%nat && fork_blocked i)) :: block_from (S i) r
+  end.
+
+(* uv__spawn_and_init_child_fork: returns the mask the forked child starts
+   with (None: fork failed) and the caller's mask on return *)
+Definition fork_sigmask (m : sigmask) (fork_fail : bool) : option sigmask * sigmask :=
+  let sigoldset := m in
+  let during := block_from 0 m in          (* pthread_sigmask(SIG_BLOCK, &signewset, &sigoldset) *)
+  let child := if fork_fail then None else Some during in   (* fork() *)
+  (child, sigoldset).                      (* pthread_sigmask(SIG_SETMASK, &sigoldset, NULL),
+                                              before the test of *pid == -1 *)
+
+(* ------------------------------------------------------------------ *)
 (* (b) uv_spawn                                                          *)
 (* ------------------------------------------------------------------ *)
 Inductive stdio :=
@@ -269,7 +295,8 @@ Record spec := mkSpec {
   s_sp_fail : option nat;      (* this socketpair() call (0-based) fails with ENFILE *)
   s_pipe_fail : bool;          (* pipe2() of the error pipe fails with EMFILE *)
   s_fork_fail : bool;          (* fork() fails with EAGAIN *)
-  s_exec_err : option Z        (* errno of execvp, None = success *)
+  s_exec_err : option Z;       (* errno of execvp, None = success *)
+  s_mask : sigmask             (* the calling thread's signal mask on entry *)
 }.
 
 Definition pipes := list (option nat * option nat).
@@ -345,7 +372,10 @@ Record sres := mkRes {
   r_child : option cres;            (* the forked child, if any *)
   r_streams : list (nat * nat);     (* (slot, descriptor) handed to uv__stream_open *)
   r_wrote : option (option nat * Z);(* failing child: file the error int went to (None = EBADF) *)
-  r_reaped : option (option wans)   (* blocking waitpid of a child whose exec failed *)
+  r_reaped : option (option wans);  (* blocking waitpid of a child whose exec failed *)
+  r_mask : sigmask;                 (* the calling thread's signal mask on return *)
+  r_child_mask : option sigmask     (* the mask the forked child starts with (it empties it
+                                       just before exec, process.c:405-408) *)
 }.
 
 (* uv__spawn_and_init_child (860-963) on the table after init_stdio.
@@ -380,13 +410,16 @@ Definition uv_spawn (s : spec) (wo : list wans) : sres * list wans :=
   let '(t1, ps, fresh1, err) := init_stdio (s_stdio s) (s_tbl s) (s_fresh s) 0 (s_sp_fail s) in
   match err with
   | Some e =>
-      (mkRes e false (error_closes (s_stdio s) ps t1) None [] None None, wo)
+      (mkRes e false (error_closes (s_stdio s) ps t1) None [] None None (s_mask s) None, wo)
   | None =>
       let us := pad3 3 (map snd ps) in
       let '(eno, t2, c, wrote, reaped, wo1) :=
         spawn_child t1 us fresh1 (s_pipe_fail s) (s_fork_fail s) (s_exec_err s) wo in
       let '(t3, streams) := open_streams (s_stdio s) ps 0 t2 in
-      (mkRes eno (eno =? 0) t3 c streams wrote reaped, wo1)
+      (* the mask: untouched when pipe2 failed (uv__spawn_and_init_child returns at 923-924) *)
+      let masks := if s_pipe_fail s then (None, s_mask s)
+                   else fork_sigmask (s_mask s) (s_fork_fail s) in
+      (mkRes eno (eno =? 0) t3 c streams wrote reaped (snd masks) (fst masks), wo1)
   end.
 
 (* ------------------------------------------------------------------ *)
